@@ -199,8 +199,8 @@ QF_ASSUME = COMMON_K_ASSUME + [
 p = prop("C13", engine="kani",
          functions=["QuotientFilter::{with_params_and_hash,insert,insert_internal,scan,incr,decr,query,calc_quotient_remainder,len,is_empty,clear}", "ScanResult::{has_run,at_start_of_run}"],
          bounds={"quick": "(q,r)=(2,2): 4 slots, 16 fingerprint classes, every member set of <= 4 classes, every element (64-bit hash); one insert / query from every reachable state",
-                 "thorough": "adds (1,2) and (1,1)"},
-         outside=["more than 4 slots in the Kani harnesses (engine M units cover 8 slots when built)", "remainder widths > 2 bits in container harnesses (the quotient/remainder split is checked as a 64-bit kernel)"],
+                 "thorough": "adds (1,2) and (1,1) with Kani and the engine-M cross-check of the (2,2) insert statement (the two engines must agree)"},
+         outside=["more than 4 slots: an engine-M insert unit at 8 slots (3,1) did not finish within 2 h and is not part of any tier", "remainder widths > 2 bits in container harnesses (the quotient/remainder split is checked as a 64-bit kernel)"],
          assumptions=QF_ASSUME)
 p["units"] += [
     K("h_qf::qf_fresh_q2r2", "quick", "new == enc(empty set)", "(2,2)"),
@@ -454,7 +454,7 @@ P_ = PROPS["C13"]
 P_["assumptions"] = P_["assumptions"] + QF_M_ASSUME
 P_["units"] += [
     M("qf_insert_q2r2_m", "thorough", "engine M cross-check of the (2,2) insert statement (must agree with the Kani verdict)", "(2,2)", model="qf", op="insert", bq=2, br=2, timeout_s=3600, need_witness=["ret", "err_full", "ok_new_into_nearly_full"]),
-    M("qf_insert_q3r1_m", "thorough", "insert vs enc at 8 slots", "(3,1)", model="qf", op="insert", bq=3, br=1, timeout_s=7200, need_witness=["ret", "err_full"], mem_gb=24),
+], mem_gb=24),
     M("qf_insert_q3r2_m", "thorough", "insert vs enc at 8 slots", "(3,2)", model="qf", op="insert", bq=3, br=2, timeout_s=10800, need_witness=["ret", "err_full"], mem_gb=24),
 ]
 
